@@ -1263,6 +1263,62 @@ func c06CheckHdr(c c06HdrCase) engine.Result {
 	return res
 }
 
+// ---- scenario "descriptor-count-sweep" ----------------------------------------------------------------------
+
+type c06CountCase struct {
+	N int `json:"descriptors_in_the_stream"`
+}
+
+// one stream with exactly N descriptors (bodies of 0..3 bytes, the last one empty for odd N), between a stream with
+// one descriptor and a stream without: whatever a decoder does with small, pre-sized or growing descriptor lists,
+// every count comes back complete and in order; also as program-level descriptors.
+func c06CheckCount(c c06CountCase) engine.Result {
+	var res engine.Result
+	var ds []ref.Desc
+	for i := 0; i < c.N; i++ {
+		body := []byte{byte(i), byte(i * 3), byte(i * 7)}[:i%4%4]
+		if i%4 == 3 {
+			body = []byte{byte(i), 0xFF, byte(i)}
+		}
+		if i == c.N-1 && c.N%2 == 1 {
+			body = nil // an empty descriptor in last position
+		}
+		ds = append(ds, ref.Desc{Tag: byte(0x80 + i%0x70), Body: body})
+	}
+	for variant := 0; variant < 3; variant++ {
+		sec := ref.PMTSection{Program: 1, Version: byte(c.N & 31), CurrentNext: true, PCRPID: 0x100, Streams: []ref.Stream{
+			{Type: 0x1B, PID: 0x100, Descs: []ref.Desc{{Tag: 0x0A, Body: []byte("fra\x01")}}},
+			{Type: 0x0F, PID: 0x101, Descs: ds},
+			{Type: 0x86, PID: 0x102}}}
+		switch variant {
+		case 1: // the long list on the LAST stream
+			sec.Streams[1], sec.Streams[2] = sec.Streams[2], sec.Streams[1]
+		case 2: // ... and at program level
+			sec.ProgDescs = ds
+			sec.Streams[1].Descs = nil
+		}
+		if len(sec.Bytes()) > 1024 {
+			continue
+		}
+		w := c06MakeWant(&sec)
+		w.obsOnly = true
+		payload := c06Payload(0, ref.PMTBytes(sec, false), 1)
+		var pmt psi.PMT
+		var err error
+		res.Nontrivial++
+		if engine.Guard(&res, "NewPMT", func() { pmt, err = psi.NewPMT(payload) }) {
+			continue
+		}
+		if err != nil || pmt == nil {
+			res.Failf("descriptor-count-sweep|NewPMT|error", "%d descriptors (variant %d): %v", c.N, variant, err)
+			continue
+		}
+		c06Verify(&res, "descriptor-count-sweep|NewPMT|variant-"+string(rune(0x30+variant))+"|", pmt, w, true)
+	}
+	res.Outcome(c.N)
+	return res
+}
+
 // ---- scenario "type-tag-product" --------------------------------------------------------------------------
 
 // C06WellKnownFormatIDs: registration format_identifiers in common use (SMPTE-RA), also used by C20.
@@ -1675,6 +1731,16 @@ func init() {
 					}
 				},
 				Check: c06CheckNest, Batch: 4,
+			},
+			&engine.Enum[c06CountCase]{
+				Name: "descriptor-count-sweep",
+				Rule: "a stream with EXACTLY N descriptors for every N in 0..120 (bodies of 0..3 bytes, the last descriptor empty for odd N), as the middle stream, as the last stream, and as program-level descriptors: tags, bodies, counts and the other streams exactly as in the section (fixed-size arrays, pre-sized slices and growth steps of any implementation are crossed)",
+				Gen: func(r *engine.Run, emit func(c06CountCase)) {
+					for n := 0; n <= 120; n++ {
+						emit(c06CountCase{n})
+					}
+				},
+				Check: c06CheckCount, Batch: 4,
 			},
 			&engine.Enum[c06ProdCase]{
 				Name: "type-tag-product",
